@@ -18,6 +18,14 @@ PLANS = ["NoGC", "SemiSpace", "GenCopy", "GenImmix", "MarkSweep", "PageProtect",
 EXCLUDED_SEMS = {"MarkCompact": {"6"}, "Compressor": {"1", "6"}, "ConcurrentImmix": {"6"}}
 
 
+HEAP_EVENTS = {"Boot", "Reset", "Alloc", "AllocCall", "AllocFail", "Write", "Load", "SetRoot", "Bind",
+               "Destroy", "Pin", "Unpin", "GCEnd", "GCRequest", "GCReturn", "Crash", "GridStart",
+               "GridEnd", "CycleEnd", "Probes", "OutOfMemory", "OptCall", "OptRet", "BlockEnter",
+               "BlockExit", "Resume", "End", "OomRound", "ConcurrentWait", "StopEnter", "StopExit",
+               "AddCandidate", "AddFinalizer", "PopFinalized", "EnqueueRefs", "ClearReferent",
+               "WeakTable", "RegionCopy", "BarrierSlow", "ProcessModBuf", "PostChurn"}
+
+
 def variant_of(plan):
     return 1 if plan == "Compressor" else 0
 
@@ -155,6 +163,28 @@ def cycle_matrix(tier):
     return runs
 
 
+def oom_matrix(tier):
+    """C10: allocation options x request sizes in heaps that fill up."""
+    runs = []
+    for p in PLANS:
+        heap = 64 if p == "NoGC" else 16
+        runs.append(Run(p, name="oom", heap=heap, sems="0,2",
+                        extra=["--mode", "oom", "--rounds", "2" if tier == "quick" else "6"]))
+        if tier != "quick":
+            runs.append(Run(p, name="oom-rel", heap=heap if p == "NoGC" else 24, sems="0,2", release=True,
+                            seed_off=1, workers=1, extra=["--mode", "oom", "--rounds", "6"]))
+            runs.append(Run(p, name="oom-small", heap=heap if p == "NoGC" else 8, sems="0,2", seed_off=2,
+                            workers=4, extra=["--mode", "oom", "--rounds", "4"]))
+    # recorded defects, exercised on purpose
+    runs.append(Run("SemiSpace", name="oom-bigovercommit-probe", heap=16, sems="0,2",
+                    extra=["--mode", "oom", "--rounds", "2", "--bigovercommit"],
+                    known_key="big-overcommit:large-object-space-corruption"))
+    runs.append(Run("NoGC", name="oom-hugesize-probe", heap=64, sems="0",
+                    extra=["--mode", "oom", "--rounds", "1", "--hugesize"],
+                    known_key="NoGC:size>=2^63:address-overflow"))
+    return runs
+
+
 def _crash_key(row, run):
     loc = row.get("loc", "")
     loc = re.sub(r"^/repo/", "", loc)
@@ -176,7 +206,7 @@ def make_keyfn(run, prefixes):
     return keyfn
 
 
-def execute(ctx, runs, prefixes, par_run=6, par_tlc=6):
+def execute(ctx, runs, prefixes, par_run=6, par_tlc=6, spec=None):
     """Build, run and validate. Returns aggregated HEAP_STATS."""
     exes = {}
     for fs, rel in sorted({(r.feats, r.release) for r in runs}):
@@ -200,8 +230,12 @@ def execute(ctx, runs, prefixes, par_run=6, par_tlc=6):
             what = "hang (no progress within the time limit)" if rc == -9 else "process died rc=%s" % rc
             tail = re.sub(r"[^\x20-\x7e]", " ", o[-300:])
             lines.append(json.dumps({"ev": "Crash", "msg": what + " " + tail, "loc": "process", "th": -1}))
+        # The same process trace also carries scheduler/page-resource events for other
+        # specifications; HeapTrace (and Trace_AllocOpts) get the projection on the events they
+        # consume (dropping whole events, nothing else).
+        keep = [l for l in lines if l[7:l.find('"', 7)] in HEAP_EVENTS]
         with open(out, "w") as f:
-            f.write("\n".join(lines) + "\n")
+            f.write("\n".join(keep) + "\n")
         return r, out, rc
 
     stats = {"programs": 0, "allocs": 0, "writes": 0, "gcs": 0, "moved": 0, "survivors": 0,
@@ -212,17 +246,21 @@ def execute(ctx, runs, prefixes, par_run=6, par_tlc=6):
 
     def do_val(item):
         r, out, rc = item
-        res = ctx.tlc_trace("HeapTrace.tla", "HeapTrace.cfg", out, spec_dir=SD, name="t_" + r.label,
+        mod, cfg, sdir = spec or ("HeapTrace.tla", "HeapTrace.cfg", SD)
+        res = ctx.tlc_trace(mod, cfg, out, spec_dir=sdir, name="t_" + r.label,
                             keyfn=make_keyfn(r, prefixes), replay_whole=True,
                             what="whole-system trace of %s rejected by HeapTrace" % r.label,
                             key=r.known_key, timeout=1200)
         log = open(os.path.join(ctx.work, "tlc_t_%s.log" % r.label)).read()
+        m2 = re.search(r"OPT_STATS calls=(\d+)", log)
         m = re.search(r"HEAP_STATS \[(.*?)\]", log)
         st = {}
         if m:
             for kv in m.group(1).split(","):
                 k, v = kv.split("|->")
                 st[k.strip()] = int(v.strip())
+        if m2:
+            st["calls"] = int(m2.group(1))
         return r, res, st
 
     with cf.ThreadPoolExecutor(par_tlc) as ex:
